@@ -13,7 +13,7 @@
 //    membership({}) is false in the eager map.
 // The property asks for the same answer from both variants "for all queried vertex sets".
 //
-// Build: g++ -std=gnu++17 -O1 -g -fsanitize=address,undefined -I/tmp/seed/P16/src/Toplex_map/include defect_5.cpp -o defect_5
+// Build: g++ -std=gnu++17 -O1 -g -fsanitize=address,undefined -I/repo/src/Toplex_map/include defect_5.cpp -o defect_5
 #include <gudhi/Toplex_map.h>
 #include <gudhi/Lazy_toplex_map.h>
 #include <cstdio>
